@@ -1,6 +1,21 @@
 """Worker for C08: runs one full analysis (read_pin -> read_fasta -> brew -> assign_confidence with
-proteins) in THIS interpreter (whose PYTHONHASHSEED the parent chose), twice, then feeds the models
-back in every permutation; prints a JSON summary with bit-exact fingerprints."""
+proteins) in THIS interpreter (whose PYTHONHASHSEED and MOKAPOT_* chunk-size environment the parent chose),
+twice, then feeds the models back in every permutation; prints a JSON summary with bit-exact fingerprints.
+
+Options of a case (`opts`, all optional; the defaults are the analysis of the first version of this check):
+  fmt            "tsv" | "parquet"     format of the PSM tables
+  fasta_files    1 | 2                 the FASTA text is handed to read_fasta as one file or as a tuple of two
+  model          "percolator" (PercolatorModel with the case's seed) | "default" (brew(model=None))
+  rng_kind       "int" | "generator"   the fixed seed is passed as an int or as a freshly seeded numpy Generator
+  subset_max_train, ensemble           passed to brew
+  sleep          bool                  worker functions of mokapot get short random delays (thread completion order
+                                       differs from run to run and between interpreters) when max_workers > 1
+  reuse          bool                  run 2 re-uses the (untrained) model OBJECT of run 1 and writes into the
+                                       result directory of run 1 (which still holds the files of run 1)
+  proteins       bool (default true)   protein level on; off for Parquet input, where the protein level of /repo always fails
+  persist        bool                  one more feed-back run with the models saved to files and loaded again
+                                       (what the command line does with --load_models), in reversed order
+"""
 import hashlib
 import itertools
 import json
@@ -9,12 +24,21 @@ import os
 import shutil
 import sys
 import tempfile
+import zlib
 from pathlib import Path
 
 
 def _hex(a):
     import numpy as np
     return [float(v).hex() for v in np.asarray(a, dtype=float).ravel()]
+
+
+class _NoSleep:
+    def __enter__(self):
+        return self
+
+    def __exit__(self, *a):
+        return False
 
 
 def main(path):
@@ -26,67 +50,153 @@ def main(path):
     import mokapot
     import mokapot.confidence as mconf
     case = json.load(open(path))
+    opts = case.get("opts") or {}
     d = Path(tempfile.mkdtemp(prefix="c08_", dir=os.environ.get("VERIF_TMP", "/tmp")))
     out = {"hashseed": os.environ.get("PYTHONHASHSEED")}
+    # the chunk constants the interpreter really runs with (they come from the MOKAPOT_* environment)
+    import mokapot.constants as mconst
+    out["chunk_constants"] = {k: int(getattr(mconst, k)) for k in dir(mconst) if k.isupper()}
     try:
         paths = []
         for i, f in enumerate(case["files"]):
             df = pd.DataFrame(f["data"], columns=f["columns"])
-            p = d / ("file%d.pin" % i)
-            df.to_csv(p, sep="\t", index=False)
+            if opts.get("fmt") == "parquet":
+                p = d / ("file%d.parquet" % i)
+                df.to_parquet(p, index=False)
+            else:
+                p = d / ("file%d.pin" % i)
+                df.to_csv(p, sep="\t", index=False)
             paths.append(p)
-        fasta = d / "db.fasta"
-        fasta.write_text(case["fasta"])
+        if opts.get("fasta_files", 1) == 2:
+            entries = case["fasta"].split("\n>")
+            cut = max(1, len(entries) // 2)
+            fa, fb = d / "db_a.fasta", d / "db_b.fasta"
+            fa.write_text("\n>".join(entries[:cut]) + "\n")
+            fb.write_text(">" + "\n>".join(entries[cut:]))
+            fasta = (fa, fb)
+        else:
+            fasta = d / "db.fasta"
+            fasta.write_text(case["fasta"])
         # PEPs are outside this property and the spline fit refuses tiny tables: deterministic stub
         mconf.peps_from_scores = lambda scores, targets, *a, **k: np.zeros(len(scores))
 
-        def analysis(tag, models=None):
-            res = {}
-            dss = mokapot.read_pin(paths, max_workers=case["workers"])
-            res["features"] = [list(x.feature_columns) for x in dss]
-            P = mokapot.read_fasta(fasta, **case["fasta_args"])
-            res["peptide_map"] = sorted(P.peptide_map.items())
-            res["shared_keys"] = sorted(P.shared_peptides.keys())
-            res["protein_map"] = sorted(P.protein_map.items())
+        def errtext(e):
+            # the scratch directory has another name in every run: not part of the observation
+            return type(e).__name__ + ": " + str(e).replace(str(d), "<tmp>")[:160]
+
+        def fixed_seed():
+            """the user's fixed seed, in the form the case chose; a Generator is made afresh for every use,
+            as a user does who writes default_rng(seed) in his script"""
+            if opts.get("rng_kind") == "generator":
+                return np.random.default_rng(case["seed"])
+            return case["seed"]
+
+        def new_model():
+            if opts.get("model") == "default":
+                return None
+            return mokapot.PercolatorModel(train_fdr=case["train_fdr"], max_iter=3, rng=fixed_seed())
+
+        def sleeps(tag):
+            if opts.get("sleep") and case["workers"] > 1:
+                from harness import brewlib
+                s = zlib.crc32(("%s|%s|%s" % (os.environ.get("PYTHONHASHSEED"), case["seed"], tag)).encode())
+                return brewlib.Sleeps(s)
+            return _NoSleep()
+
+        # coverage only: how many groups of a groupby_max call have their maximum on two or more rows (a tie that the
+        # seeded shuffle has to break); the call itself goes through unchanged
+        import mokapot.utils as mutils
+        real_groupby_max = mutils.groupby_max
+        tie_log = []
+
+        def counting_groupby_max(df, by_cols, max_col, rng):
             try:
-                model = models if models is not None else mokapot.PercolatorModel(
-                    train_fdr=case["train_fdr"], max_iter=3, rng=case["seed"])
-                _, ms, scores, descs = mokapot.brew(dss, model, test_fdr=case["test_fdr"], folds=case["folds"],
-                                                    max_workers=case["workers"], rng=case["seed"])
-            except Exception as e:
-                res["error"] = type(e).__name__ + ": " + str(e)[:120]
-                return res, None
-            res["scores"] = [_hex(s) for s in scores]
-            res["descs"] = [bool(x) for x in descs]
-            res["folds"] = [m.fold for m in ms]
-            res["trained"] = [bool(m.is_trained) for m in ms]
-            res["coef"] = [(_hex(m.estimator.coef_) + _hex(m.estimator.intercept_)) if hasattr(m.estimator, "coef_") else None
-                           for m in ms]
-            res["best_feat"] = [str(m.best_feat) if isinstance(m.best_feat, str) else None for m in ms]
-            if models is None:
-                o = d / ("out_" + tag)
-                o.mkdir()
+                by = list(mutils.tuplize(by_cols))
+                top = df.groupby(by)[max_col].transform("max")
+                tie_log.append(int(((df[max_col] == top).groupby([df[b] for b in by]).sum() > 1).sum()))
+            except Exception:
+                tie_log.append(-1)
+            return real_groupby_max(df, by_cols, max_col, rng)
+
+        mutils.groupby_max = counting_groupby_max
+        mconf.groupby_max = counting_groupby_max
+
+        prefixes = [None] * len(paths) if len(paths) == 1 else ["c%d" % i for i in range(len(paths))]
+        shared = {"model": new_model() if opts.get("reuse") else None}
+
+        def analysis(tag, models=None, outdir=None):
+            res = {}
+            with sleeps(tag):
+                dss = mokapot.read_pin(paths, max_workers=case["workers"])
+                res["features"] = [list(x.feature_columns) for x in dss]
+                P = mokapot.read_fasta(fasta, **case["fasta_args"])
+                res["peptide_map"] = sorted(P.peptide_map.items())
+                res["shared_keys"] = sorted(P.shared_peptides.keys())
+                res["protein_map"] = sorted(P.protein_map.items())
+                res["has_decoys"] = bool(P.has_decoys)
                 try:
-                    mokapot.assign_confidence(dss, max_workers=case["workers"], scores=list(scores), descs=list(descs),
-                                              eval_fdr=0.5, dest_dir=o, prefixes=[None] * len(paths) if len(paths) == 1 else
-                                              ["c%d" % i for i in range(len(paths))], decoys=True, proteins=P,
-                                              rng=case["seed"])
-                    res["files"] = {fn: hashlib.sha256((o / fn).read_bytes()).hexdigest() for fn in sorted(os.listdir(o))}
+                    if models is not None:
+                        model = models
+                    elif opts.get("reuse"):
+                        model = shared["model"]
+                    else:
+                        model = new_model()
+                    _, ms, scores, descs = mokapot.brew(dss, model, test_fdr=case["test_fdr"], folds=case["folds"],
+                                                        max_workers=case["workers"], rng=fixed_seed(),
+                                                        subset_max_train=opts.get("subset_max_train"),
+                                                        ensemble=bool(opts.get("ensemble")))
                 except Exception as e:
-                    res["conf_error"] = type(e).__name__ + ": " + str(e)[:120]
-                # the same with coarse scores (one decimal): exact ties at every level, inside proteins and inside
-                # target/decoy protein pairs, so that every tie-break of the confidence stage is exercised
-                o2 = d / ("tied_" + tag)
-                o2.mkdir()
-                try:
-                    mokapot.assign_confidence(dss, max_workers=case["workers"], scores=[np.round(s, 1) for s in scores],
-                                              descs=list(descs), eval_fdr=0.5, dest_dir=o2,
-                                              prefixes=[None] * len(paths) if len(paths) == 1 else
-                                              ["c%d" % i for i in range(len(paths))], decoys=True, proteins=P,
-                                              rng=case["seed"])
-                    res["files_tied"] = {fn: hashlib.sha256((o2 / fn).read_bytes()).hexdigest() for fn in sorted(os.listdir(o2))}
-                except Exception as e:
-                    res["conf_tied_error"] = type(e).__name__ + ": " + str(e)[:120]
+                    res["error"] = errtext(e)
+                    return res, None
+                res["scores"] = [_hex(s) for s in scores]
+                res["descs"] = [bool(x) for x in descs]
+                res["folds"] = [m.fold for m in ms]
+                res["trained"] = [bool(m.is_trained) for m in ms]
+                res["coef"] = [(_hex(m.estimator.coef_) + _hex(m.estimator.intercept_)) if hasattr(m.estimator, "coef_") else None
+                               for m in ms]
+                res["best_feat"] = [str(m.best_feat) if isinstance(m.best_feat, str) else None for m in ms]
+                res["feat_pass"] = [None if m.feat_pass is None else int(m.feat_pass) for m in ms]
+                res["model_desc"] = [None if m.desc is None else bool(m.desc) for m in ms]
+                if models is None:
+                    o = outdir or (d / ("out_" + tag))
+                    o.mkdir(exist_ok=True)
+                    del tie_log[:]
+                    try:
+                        mokapot.assign_confidence(dss, max_workers=case["workers"], scores=list(scores), descs=list(descs),
+                                                  eval_fdr=0.5, dest_dir=o, prefixes=prefixes, decoys=True,
+                                                  proteins=P if opts.get("proteins", True) else None, rng=fixed_seed())
+                        res["files"] = {fn: hashlib.sha256((o / fn).read_bytes()).hexdigest() for fn in sorted(os.listdir(o))}
+                    except Exception as e:
+                        res["conf_error"] = errtext(e)
+                    res["_tie_groups"] = list(tie_log)
+                    del tie_log[:]
+                    # the same with coarse scores (one decimal): exact ties at every level, inside proteins and inside
+                    # target/decoy protein pairs, so that every tie-break of the confidence stage is exercised
+                    o2 = d / ("tied_" + tag)
+                    o2.mkdir()
+                    try:
+                        mokapot.assign_confidence(dss, max_workers=case["workers"], scores=[np.round(s, 1) for s in scores],
+                                                  descs=list(descs), eval_fdr=0.5, dest_dir=o2, prefixes=prefixes,
+                                                  decoys=True, proteins=P if opts.get("proteins", True) else None,
+                                                  rng=fixed_seed())
+                        res["files_tied"] = {fn: hashlib.sha256((o2 / fn).read_bytes()).hexdigest() for fn in sorted(os.listdir(o2))}
+                    except Exception as e:
+                        res["conf_tied_error"] = errtext(e)
+                    res["_tie_groups_tied"] = list(tie_log)
+                    # and with scores rounded to integers: a handful of distinct values, so that the best score of most
+                    # protein pairs is shared by several peptides
+                    del tie_log[:]
+                    o3 = d / ("coarse_" + tag)
+                    o3.mkdir()
+                    try:
+                        mokapot.assign_confidence(dss, max_workers=case["workers"], scores=[np.round(s, 0) for s in scores],
+                                                  descs=list(descs), eval_fdr=0.5, dest_dir=o3, prefixes=prefixes,
+                                                  decoys=True, proteins=P if opts.get("proteins", True) else None,
+                                                  rng=fixed_seed())
+                        res["files_coarse"] = {fn: hashlib.sha256((o3 / fn).read_bytes()).hexdigest() for fn in sorted(os.listdir(o3))}
+                    except Exception as e:
+                        res["conf_coarse_error"] = errtext(e)
+                    res["_tie_groups_coarse"] = list(tie_log)
             return res, ms
 
         # interpreter-global generator state is not part of the analysis: it differs between the two runs (and
@@ -99,10 +209,10 @@ def main(path):
         out["run1"] = r1
         np.random.seed(g0 + 77)
         _random.seed(g0 + 77)
-        r2, _ = analysis("run2")
-        out["run2_equal"] = (r1 == r2)
-        if r1 != r2:
-            out["run2"] = r2
+        r2, _ = analysis("run2", outdir=(d / "out_run1") if opts.get("reuse") else None)
+        out["run2_equal"] = (observed(r1) == observed(r2))
+        if not out["run2_equal"]:
+            out["run2_diff"] = diff_keys(r1, r2)
         out["perms"] = []
         if ms is not None and all(m.is_trained for m in ms):
             k = len(ms)
@@ -116,13 +226,49 @@ def main(path):
                     p_ = list(range(k))
                     r.shuffle(p_)
                     perms.append(tuple(p_))
-            for perm in perms:
-                rp, _ = analysis("perm", models=[ms[i] for i in perm])
-                out["perms"].append({"perm": list(perm), "scores_equal": rp.get("scores") == r1.get("scores"),
-                                     "error": rp.get("error")})
+
+            def fed_back(label, given):
+                rp, _ = analysis("perm", models=given)
+                out["perms"].append({"perm": label, "error": rp.get("error"),
+                                     "scores_equal": rp.get("scores") == r1.get("scores") and rp.get("descs") == r1.get("descs"),
+                                     "folds_equal": rp.get("folds") == r1.get("folds")})
+
+            for j, perm in enumerate(perms):
+                given = [ms[i] for i in perm]
+                # brew takes any sequence of models: lists and tuples alternate
+                fed_back(list(perm), given if j % 2 == 0 else tuple(given))
+            if opts.get("persist"):
+                # the models written to files and loaded again, handed over in reversed order
+                loaded = []
+                for i, m in enumerate(ms):
+                    mp = d / ("model_%d.pkl" % i)
+                    m.save(mp)
+                    loaded.append(mokapot.load_model(mp))
+                fed_back("loaded-from-files-reversed", loaded[::-1])
     finally:
         shutil.rmtree(d, ignore_errors=True)
     print("C08RESULT " + json.dumps(out))
+
+
+def observed(r):
+    """the observations of a run; keys with a leading underscore are coverage counters of the harness"""
+    return {k: v for k, v in r.items() if not k.startswith("_")}
+
+
+def diff_keys(a, b):
+    """names of the observations that differ; result files are named one by one"""
+    a, b = observed(a), observed(b)
+    outk = []
+    for k in sorted(set(a) | set(b)):
+        if a.get(k) == b.get(k):
+            continue
+        if isinstance(a.get(k), dict) and isinstance(b.get(k), dict):
+            for fn in sorted(set(a[k]) | set(b[k])):
+                if a[k].get(fn) != b[k].get(fn):
+                    outk.append(k + ":" + fn)
+        else:
+            outk.append(k)
+    return outk
 
 
 if __name__ == "__main__":
